@@ -364,16 +364,22 @@ impl State for FileState {
             command,
         );
         let bytes = entry.to_bytes();
-        self.persister
-            .append(&self.path, &bytes)
-            .await
-            .with_error_context(|error| {
-                format!(
-                    "{COMPONENT} (error: {error}) - failed to append state entry data to file, path: {}, data size: {}",
-                    self.path,
-                    bytes.len()
-                )
-            })?;
+        let size_before_append = std::fs::metadata(&self.path).map(|metadata| metadata.len());
+        if let Err(error) = self.persister.append(&self.path, &bytes).await {
+            error!(
+                "{COMPONENT} (error: {error}) - failed to append state entry data to file, path: {}, data size: {}",
+                self.path,
+                bytes.len()
+            );
+            // Whatever part of the entry reached the file belongs to a command that is reported as
+            // failed: it must not stay in front of the entries that will follow.
+            if let Ok(size_before_append) = size_before_append {
+                if let Err(error) = file::truncate(&self.path, size_before_append).await {
+                    error!("{COMPONENT} (error: {error}) - failed to remove the partially appended state entry, path: {}", self.path);
+                }
+            }
+            return Err(error);
+        }
         self.current_index.store(index, Ordering::SeqCst);
         self.entries_count.fetch_add(1, Ordering::SeqCst);
         debug!("Applied state entry: {entry}");
